@@ -1,7 +1,8 @@
 (* C12 — EDNS0 ends at the proxy; ECS reveals only a truncated client prefix.
    Only statements; proofs in Router/RouterProofs.v. *)
 From Mos Require Import Base.Prelude Codec.Name Codec.Msg Codec.WfProofs Codec.RoundtripProofs
-  Router.Rules Router.Edns Router.Router Router.RouterSpec Router.RouterProofs.
+  Router.Rules Router.Edns Router.Router Router.RouterSpec Router.RouterProofs Cache.CachePolicy Router.Cached
+  Router.CachedProofs.
 
 (* The OPT records of the additional section of EVERY response: none for an unsupported query; otherwise exactly the
    proxy's own fresh OPT (class = its UDP size, TTL 0, no options) iff the query carried one.  The statement does
@@ -62,6 +63,43 @@ Print Assumptions C12_ecs_privacy.
 
 (* non-vacuity: an upstream reply with a cookie-laden OPT, a query with an ECS-laden OPT: the response's only OPT is
    the proxy's own *)
+(* ... and on a CACHING proxy (Router/Cached.v = the request path composed with cacheCtl.Get/Store and the prefetch):
+   in every state reachable by any history of requests, prefetches (for any question, client and upstream), clock
+   ticks, collections and evictions, the response to any query — fresh, relayed or SERVED FROM CACHE — carries exactly
+   the proxy's own OPT iff the query carried one.  (The cache invariant behind it: every cached message is OPT-free,
+   because only [forward]'s OPT-stripped result is ever stored.)  [ckey] is the cache key as a function of the
+   lower-cased question and the client (injective in the question: C07_cache_key_injective). *)
+Theorem C12_resp_opt_cached : forall matches rules ecs up ckey maxttl,
+  (forall u w r, up u w = UReply r -> count_opt (m_ar r) <= 1) ->
+  (forall q1 c1 q2 c2, ckey q1 c1 = ckey q2 c2 -> q1 = q2) ->
+  forall (clk : N) (evs : list cev) (t ts eps : Z) (m : msg) (client : addr),
+  let st := fst (crun matches rules ecs up ckey maxttl (init_state clk) evs) in
+  filter is_opt (m_ar (co_resp (snd (handle_c matches rules ecs up ckey maxttl st t ts eps m client)))) =
+  if unsupported m then [] else if has_opt m then [new_opt udp_size []] else [].
+Proof.
+  intros matches rules ecs up ckey maxttl H1 Hinj clk evs t ts eps m client st.
+  apply (handle_c_opt matches rules ecs up ckey maxttl H1 Hinj).
+  apply (crun_inv matches rules ecs up ckey maxttl H1 Hinj). apply cinv_init.
+Qed.
+Print Assumptions C12_resp_opt_cached.
+
+(* non-vacuity: an upstream reply WITH an OPT (cookie) is cached; a later client WITHOUT EDNS is served from cache and
+   gets no OPT, a client WITH EDNS gets exactly the proxy's own *)
+Definition c12_q (id : N) (edns : bool) : msg :=
+  mkMsg (mkHeader id false 0 false false true false false false 0) [mkQuestion [1; 97]%N 1 1] [] []
+        (if edns then [new_opt 4096 []] else []).
+Definition c12_reply : msg :=
+  mkMsg (mkHeader 0 true 0 false false true true false false 0) [mkQuestion [1; 97]%N 1 1]
+        [mkRR [1; 97]%N 1 1 60 4 (RA [1; 2; 3; 4]%N)] [] [mkRR [] TypeOPT 4096 32768 12 (RRaw [0; 10; 0; 8; 1; 2; 3; 4; 5; 6; 7; 8]%N)].
+Example C12_cached_example :
+  let run := crun (fun _ _ => false) [mkRule None 0 (Some 0)] false (fun _ _ => UReply c12_reply)
+                  (fun q _ => q_type q) (6 * 3600 * SECOND)%Z (init_state 100)
+                  [CReq 0 0 1000 (c12_q 1 true) ANone; CReq 5 5 1000 (c12_q 2 false) ANone; CReq 9 9 1000 (c12_q 3 true) ANone] in
+  map (fun o => match o with
+                | Some o => (co_cached o, length (co_eff o), count_opt (m_ar (co_resp o)))
+                | None => (false, 0, 0) end) (snd run) = [(false, 1, 1); (true, 0, 0); (true, 0, 1)].
+Proof. vm_compute. reflexivity. Qed.
+
 Example C12_example :
   let opt d := mkRR [] 41 4096 0 0 (RRaw d) in
   let m := mkMsg (mkHeader 9 false 0 false false true false false false 0) [mkQuestion [1; 97]%N 1 1] [] []
